@@ -67,6 +67,11 @@ impl<R: Read + Seek> ReadBox<&mut R> for TrafBox {
                     "traf box contains a box with a larger size than it",
                 ));
             }
+            if s == 0 {
+                return Err(Error::InvalidData(
+                    "traf box contains a box with size 0",
+                ));
+            }
 
             match name {
                 BoxType::TfhdBox => {
